@@ -21,6 +21,7 @@ pub fn exec_op(op: &str) -> String {
             .or_else(|| suites::events::exec(&args))
             .or_else(|| suites::time::exec(&args))
             .or_else(|| suites::framer::exec(&args))
+            .or_else(|| suites::assembler::exec(&args))
     });
     match res {
         Ok(Some(s)) => s,
@@ -82,6 +83,8 @@ fn main() {
         "time" => suites::time::run(&ctx),
         "framer" => suites::framer::run(&ctx),
         "framerseq" => suites::framer::run_seq(&ctx),
+        "asmseq" => suites::assembler::run_seq(&ctx),
+        "asmscen" => suites::assembler::run_scen(&ctx),
         "expand" => {
             // stdin: requests whose hashes disagreed; output: the individual requests they stand for
             use std::io::BufRead;
